@@ -5,9 +5,10 @@ declarations cannot influence it."""
 import re, os
 from tools import cxx2c
 from tools.cxx2c import Lower, Unsupported, kids, qt, qt_sugar, strip, strip_parens, callee_name, norm_type, walk
+from tools.cxx2c import REPO as _REPO
 
 NAME = 'TFA'
-SRC = '/repo/src/bloch/compiler/semantics/semantic_analyser.cpp'
+SRC = _REPO + '/src/bloch/compiler/semantics/semantic_analyser.cpp'
 NAMESPACE = 'bloch::compiler'
 FUNCS = ['typeFromAst']
 AST_FILTER = ['SemanticAnalyser::typeFromAst', 'ValueType']
